@@ -11,9 +11,8 @@ if ! git -C $WT apply --3way "$PATCH" 2>/tmp/seedcheck_apply.err && ! git -C $WT
 git -C $WT reset -q
 (cd $WT && GOFLAGS=-mod=mod go build ./... ) || { echo "DOES NOT COMPILE"; exit 3; }
 cd /verif
-cp evidence/$ID.json /tmp/seedcheck_evidence_$ID.json 2>/dev/null
 START=$(date +%s)
-VERIF_REPO=$WT ./bin/vcheck $ID "$@" > /tmp/seedcheck_$ID.log 2>&1
+VERIF_WORKTAG=seed VERIF_REPO=$WT ./bin/vcheck $ID "$@" > /tmp/seedcheck_$ID.log 2>&1
 RC=$?
 END=$(date +%s)
 grep -v "^KNOWN" /tmp/seedcheck_$ID.log | tail -6
@@ -21,7 +20,7 @@ echo "exit=$RC"
 python3 - "$ID" "$PATCH" "$RC" "$((END-START))" "$*" <<'PY'
 import json,sys,os,subprocess
 id_,patch,rc,secs,args=sys.argv[1:6]
-ev=json.load(open(f'/verif/evidence/{id_}.json'))
+ev=json.load(open(f'/verif/evidence.seed/{id_}.json'))
 out={"check":id_,"args":args,"tier":ev.get("tier"),"verif_seed":ev.get("seed"),"exit":int(rc),"detected":int(rc)==1,
      "violation_signatures":ev["coverage"].get("violation_signatures"),"wall_s":int(secs),
      "repo_head":subprocess.run(["git","-C","/repo","rev-parse","--short","HEAD"],capture_output=True,text=True).stdout.strip()}
@@ -35,6 +34,4 @@ hist.append(out)
 json.dump(hist,open(p,"w"),indent=1)
 print("recorded", p)
 PY
-# the evidence file of the real tree is restored (this run was against a patched copy)
-cp /tmp/seedcheck_evidence_$ID.json evidence/$ID.json 2>/dev/null
 git -C $WT checkout -- . ; git -C $WT clean -fdq
